@@ -60,6 +60,8 @@ pub struct Plan<E: FieldElement> {
     pub structure: Structure,
     pub num_queries: usize,
     pub nonce: u64,
+    /// do not send the remainder commitment at all
+    pub omit_rem_commitment: bool,
 }
 
 impl<E: FieldElement> Plan<E> {
@@ -74,6 +76,7 @@ impl<E: FieldElement> Plan<E> {
             structure: Structure::None,
             num_queries,
             nonce,
+            omit_rem_commitment: false,
         }
     }
 }
@@ -257,6 +260,12 @@ where
                 sent_commitments.swap(a, b);
             }
         },
+    }
+
+    if plan.omit_rem_commitment {
+        // the remainder commitment is withheld: such a proof can never be legitimate
+        sent_commitments.pop();
+        structure_ok = false;
     }
 
     // ---- the verifier's coins ---------------------------------------------------------------------
